@@ -123,7 +123,7 @@ def storeUser (s1 : PState) (key value : String) : Outcome PState :=
     | .ok langChanged =>
       let decChanged := key = "DecimalSeparator" && curDec ≠ value
       let s2 : PState := { s1 with user := pset s1.user key (.str value) }
-      if decChanged || (curDec = "Auto" && langChanged) then
+      if decChanged || langChanged then      -- (the language also matters with an explicit DecimalSeparator: the country decides about ' as a block separator)
         match pget s2.user "Language" with
         | some (.str l) => .ok (setSeparators s2 l)
         | some _ => .panic "prefs.rs:set_string_pref:language.as_str.unwrap"
